@@ -126,28 +126,97 @@ def structured(f):
     return g
 
 
+def _ends(blk) -> bool:
+    """the block cannot complete normally (syntactic): last statement is return / raise / continue / break, or an
+    if whose both branches end"""
+    if not blk:
+        return False
+    s = blk[-1]
+    if isinstance(s, (ast.Return, ast.Raise, ast.Continue, ast.Break)):
+        return True
+    if isinstance(s, ast.If):
+        return _ends(s.body) and _ends(s.orelse)
+    return False
+
+
+def _pattern_test(subject, pat):
+    """synthetic test expression for a match pattern (None when it says nothing usable)"""
+    if isinstance(pat, ast.MatchAs) and pat.pattern is not None:
+        inner = _pattern_test(ast.Name(pat.name, ast.Load()) if pat.name else subject, pat.pattern)
+        return inner
+    if isinstance(pat, ast.MatchClass):
+        return ast.Call(ast.Name("isinstance", ast.Load()), [subject, pat.cls], [])
+    if isinstance(pat, ast.MatchValue):
+        return ast.Compare(subject, [ast.Eq()], [pat.value])
+    if isinstance(pat, ast.MatchSingleton):
+        return ast.Compare(subject, [ast.Is()], [ast.Constant(pat.value)])
+    if isinstance(pat, ast.MatchOr):
+        subs = [_pattern_test(subject, p) for p in pat.patterns]
+        if all(s is not None for s in subs):
+            return ast.BoolOp(ast.Or(), subs)
+    return None
+
+
 def path_conditions(fn: ast.AST, target: ast.AST) -> list[ast.AST]:
-    """Conjuncts (negation normal form) that the enclosing if / elif / else / while tests guarantee at `target`."""
+    """Conjuncts (negation normal form) that hold whenever `target` is reached, as far as the syntax shows: the tests
+    of enclosing if / elif / else / while / match-case arms, and the negated tests of earlier guard clauses of the
+    same block whose body cannot complete normally (`if not ok: return` ... target)."""
     out: list[ast.AST] = []
 
-    def inside(blk):
-        return any(x is target for b in blk for x in ast.walk(b))
+    def contains(n):
+        return any(x is target for x in ast.walk(n))
 
-    def descend(node):
-        for n in ast.iter_child_nodes(node):
-            if not any(x is target for x in ast.walk(n)):
+    def block(blk):
+        for i, s in enumerate(blk):
+            if not contains(s):
                 continue
-            if isinstance(n, ast.If):
-                if inside(n.body):
-                    out.extend(conjuncts(n.test))
-                elif inside(n.orelse):
-                    out.extend(conjuncts(negate(n.test)))
-            elif isinstance(n, ast.While) and inside(n.body):
-                out.extend(conjuncts(n.test))
-            descend(n)
+            for prev in blk[:i]:
+                if isinstance(prev, ast.If):
+                    if _ends(prev.body) and not _ends(prev.orelse):
+                        out.extend(conjuncts(negate(prev.test)))
+                    elif prev.orelse and _ends(prev.orelse) and not _ends(prev.body):
+                        out.extend(conjuncts(prev.test))
+            stmt(s)
             return
 
-    descend(fn)
+    def stmt(s):
+        if s is target:
+            return
+        if isinstance(s, ast.If):
+            if any(contains(b) for b in s.body):
+                out.extend(conjuncts(s.test))
+                block(s.body)
+            elif any(contains(b) for b in s.orelse):
+                out.extend(conjuncts(negate(s.test)))
+                block(s.orelse)
+            return
+        if isinstance(s, ast.While) and any(contains(b) for b in s.body):
+            out.extend(conjuncts(s.test))
+            block(s.body)
+            return
+        if isinstance(s, ast.Match):
+            for c in s.cases:
+                if any(contains(b) for b in c.body):
+                    t = _pattern_test(s.subject, c.pattern)
+                    if t is not None:
+                        out.extend(conjuncts(t))
+                    if c.guard is not None:
+                        out.extend(conjuncts(c.guard))
+                    block(c.body)
+                    return
+            return
+        for fld in ("body", "orelse", "finalbody"):
+            b = getattr(s, fld, None)
+            if isinstance(b, list) and b and isinstance(b[0], ast.stmt) and any(contains(x) for x in b):
+                block(b)
+                return
+        if isinstance(s, ast.Try):
+            for h in s.handlers:
+                if any(contains(x) for x in h.body):
+                    block(h.body)
+                    return
+
+    block(getattr(fn, "body", []))
     return out
 
 
@@ -196,6 +265,63 @@ def local_unpacked_from(src_role: str, index: int):
     return find
 
 
+def loop_var_over(text: str):
+    """finder: the variable(s) that range over `text` in for-loops / comprehensions (`for x in T`, `for i, x in enumerate(T)`)"""
+
+    def find(asg, fn):
+        hits = set()
+        for n in ast.walk(fn):
+            if isinstance(n, (ast.For, ast.comprehension)):
+                it, tg = n.iter, n.target
+                if isinstance(it, ast.Call) and isinstance(it.func, ast.Name) and it.func.id == "enumerate" and it.args and ast.unparse(it.args[0]) == text \
+                        and isinstance(tg, ast.Tuple) and len(tg.elts) == 2 and isinstance(tg.elts[1], ast.Name):
+                    hits.add(tg.elts[1].id)
+                elif ast.unparse(it) == text and isinstance(tg, ast.Name):
+                    hits.add(tg.id)
+        return hits or None
+
+    return find
+
+
+def dissolve_aliases(fn_node, pred):
+    """Copy of the function in which every local bound exactly once, to a place expression accepted by `pred`
+    (e.g. `atom = res.atoms[i]`), is replaced by that expression wherever it is used; the binding is dropped."""
+    asg = assignments(fn_node)
+    a = fn_node.args
+    params = {x.arg for x in a.posonlyargs + a.args + a.kwonlyargs}
+    al = {}
+    for nm, vals in asg.items():
+        if nm in params or len(vals) != 1 or not isinstance(vals[0], ast.AST):
+            continue
+        v = vals[0]
+        if isinstance(v, (ast.Subscript, ast.Attribute)) and pred(v):
+            al[nm] = v
+    if not al:
+        return fn_node
+    node = copy.deepcopy(fn_node)
+
+    class T(ast.NodeTransformer):
+        def visit_Name(self, n):
+            if n.id in al and isinstance(n.ctx, ast.Load):
+                return ast.copy_location(copy.deepcopy(al[n.id]), n)
+            return n
+
+        def visit_Assign(self, s):
+            if len(s.targets) == 1 and isinstance(s.targets[0], ast.Name) and s.targets[0].id in al:
+                return None
+            self.generic_visit(s)
+            return s
+
+    T().visit(node)
+    for n in ast.walk(node):  # a block may have lost its only statement
+        for fld in ("body", "orelse", "finalbody"):
+            b = getattr(n, fld, None)
+            if isinstance(b, list) and not b and fld == "body":
+                b.append(ast.Pass())
+    ast.fix_missing_locations(node)
+    return node
+
+
 def rename_roles(f, finders: dict):
     """Copy of Func `f` whose locals are renamed to the canonical role names (keys of `finders`).
     Roles that cannot be identified, or whose canonical name is taken by another local, are left alone."""
@@ -218,9 +344,18 @@ def rename_roles_node(fn_node, finders: dict):
     actual: dict[str, str] = {}
     for canon_name, fd in finders.items():
         nm = fd(asg, f.node, actual) if getattr(fd, "needs_resolved", False) else fd(asg, f.node)
-        if nm is not None and nm not in params:
+        if isinstance(nm, set):
+            nm = {x for x in nm if x not in params}
+            if nm:
+                actual[canon_name] = nm
+        elif nm is not None and nm not in params:
             actual[canon_name] = nm
-    ren = {act: can for can, act in actual.items() if act != can}
+    ren = {}
+    for can, act in actual.items():
+        for one in (act if isinstance(act, set) else {act}):
+            if one != can:
+                ren[one] = can
+    actual = {can: (sorted(act)[0] if isinstance(act, set) else act) for can, act in actual.items()}
     if not ren:
         return fn_node
     used = {n.id for n in ast.walk(f.node) if isinstance(n, ast.Name)} | params
